@@ -162,6 +162,25 @@ pub fn run_exec(prop: &Prop, scen: &Scenario) -> Exec {
     }
 }
 
+/// `frostsim digest <ID> <run>`: execute one run alone and print its event-log digest and evaluation count.
+pub fn digest_of_run(prop: &Prop, opt: &Options, run: u64) -> i32 {
+    let scen = (prop.generate)(opt.seed, run, opt.tier);
+    match run_exec(prop, &scen) {
+        Exec::Ok(r) => {
+            println!("digest={} evaluations={} outcome=ok", r.digest, r.evaluations);
+            0
+        }
+        Exec::Violation(v, r) => {
+            println!("digest={} evaluations={} outcome=violation:{}", r.digest, r.evaluations, v.oracle);
+            1
+        }
+        Exec::Harness(e) => {
+            println!("outcome=harness:{e}");
+            2
+        }
+    }
+}
+
 /// Delta-debug the scenario while the same oracle of the same property keeps firing.
 pub fn minimise(prop: &Prop, scen: &Scenario, viol: &Violation, digest0: u64) -> (Scenario, Violation, u64) {
     let mut cur = scen.clone();
@@ -407,6 +426,7 @@ pub fn run_property(prop: &Prop, opt: &Options) -> i32 {
     let mut distinct_logs: BTreeSet<u64> = BTreeSet::new();
     let mut harness_errors: Vec<String> = Vec::new();
     let mut violations: Vec<(Scenario, Violation, u64)> = Vec::new();
+    let mut fresh_replays = 0u64;
     let mut trace_lines: Vec<(u64, String)> = Vec::new();
     let done_runs = results.len() as u64;
     for (i, pr) in &results {
@@ -503,6 +523,65 @@ pub fn run_property(prop: &Prop, opt: &Options) -> i32 {
         }
     }
 
+    // fresh-process replay of sampled runs: one run of every suite (the last of each) and run 0 are executed again, each
+    // ALONE in a new process, and must reproduce the same event log and the same number of evaluations. A replay is a pure
+    // function of seed, run and code - state that lives in the process (a cache filled by whichever ciphersuite came first, a
+    // lazily initialised table) would make the in-batch result depend on what ran before it.
+    if harness_errors.is_empty() && violations.is_empty() && done_runs == runs && std::env::var("FROSTSIM_NO_FRESH_REPLAY").is_err() {
+        let mut picks: Vec<u64> = Vec::new();
+        let mut seen: BTreeSet<String> = BTreeSet::new();
+        // the LAST run of every suite (the first indices carry the deliberately huge worlds of some checks) and run 0
+        for (i, pr) in results.iter().rev() {
+            if seen.insert(pr.suite.clone()) {
+                picks.push(*i);
+            }
+        }
+        if results.contains_key(&0) && !picks.contains(&0) {
+            picks.push(0);
+        }
+        let exe = std::env::current_exe().ok();
+        // all children at once (they are independent), then collect
+        let mut children = Vec::new();
+        for run in picks {
+            let Some(exe) = &exe else { break };
+            let child = std::process::Command::new(exe)
+                .args(["digest", prop.id, &run.to_string(), "--seed", &opt.seed.to_string(), "--tier", opt.tier.name(), "--verif-dir", &opt.verif_dir])
+                .env("FROSTSIM_NO_FRESH_REPLAY", "1")
+                .stdout(std::process::Stdio::piped())
+                .stderr(std::process::Stdio::null())
+                .spawn();
+            children.push((run, child));
+        }
+        for (run, child) in children {
+            let text = match child.and_then(|c| c.wait_with_output()) {
+                Ok(o) => String::from_utf8_lossy(&o.stdout).to_string(),
+                Err(e) => {
+                    harness_errors.push(format!("fresh-process replay of run {run}: cannot start: {e}"));
+                    continue;
+                }
+            };
+            let get = |k: &str| text.split_whitespace().find_map(|w| w.strip_prefix(k)).and_then(|v| v.parse::<u64>().ok());
+            let (Some(d), Some(ev)) = (get("digest="), get("evaluations=")) else {
+                harness_errors.push(format!("fresh-process replay of run {run}: no result line ({})", text.chars().take(200).collect::<String>()));
+                continue;
+            };
+            let pr = &results[&run];
+            fresh_replays += 1;
+            if d != pr.report.digest || ev != pr.report.evaluations {
+                let scen = (prop.generate)(opt.seed, run, opt.tier);
+                let v = Violation::new(
+                    prop.id,
+                    &format!("{}.fresh_process_replay_differs", prop.id),
+                    format!(
+                        "run {run} ({}) executed alone in a fresh process gives event-log digest {d:016x} / {ev} evaluations, inside the batch {:016x} / {}: the library's behaviour depends on what the process did before (state shared across calls or ciphersuites)",
+                        pr.suite, pr.report.digest, pr.report.evaluations
+                    ),
+                );
+                violations.push((scen, v, pr.report.digest));
+            }
+        }
+    }
+
     // violations: minimise, persist, report
     let mut reported = 0u64;
     let mut known_hits: BTreeSet<String> = BTreeSet::new();
@@ -567,6 +646,7 @@ pub fn run_property(prop: &Prop, opt: &Options) -> i32 {
                 "reference": ref_summary,
                 "batch_digest": digest_all.hex(),
                 "distinct_event_logs": distinct_logs.len(),
+                "fresh_process_replays": fresh_replays,
                 "violations_found": viol_samples,
                 "known_findings_hit": known_hits.iter().cloned().collect::<Vec<_>>(),
                 "harness_errors": harness_errors,
